@@ -195,89 +195,89 @@ func TestVerifC12Crypto(t *testing.T) {
 			}
 		}
 		// forgery with a statement chosen AFTER the challenge (weak Fiat-Shamir): the holder fixes what the
-// verifier will reconstruct as commitments of the range proof (T = R^(t - a*sign*r_m), T_i = R^(2^(L*i)))
-// and, once the challenge c is known, solves for the parts of the STATEMENT - the bases C_i = R^(d_i)
-// (d_i the L-bit limbs of t mod c) and the bound k = a*m + sign*(t div c - sum d_i^2) - so that the
-// verification equations reproduce exactly these commitments.  k is off by ~2^200 on the false side.
-// If the C_i and k do not enter the challenge, the fixed point is reached at once.
-{
-	// (attribute 2 is large, so that a bound 2^200 below factor*m is still non-negative)
-	credL := vfMint(k, vfTag("c12-secretL"), []*big.Int{vfInt(50), new(big.Int).Add(vfPow2(250), vfInt(12345)), vfInt(20), vfTag("c12-l4")}, 6)
-	attrs := credL.Attributes
-	for _, nsq := range []int{4, 3} {
-		for _, tg := range []struct {
-			idx  int
-			sign int
-			a    uint
-		}{{1, 1, 1}, {2, 1, 1}, {2, -1, 1}, {2, 1, 5}, {2, -1, 7}} {
-			if _, mine := r.Next(); !mine {
-				continue
-			}
-			r.Eval()
-			idx, sign, a := tg.idx, tg.sign, tg.a
-			if nsq == 3 {
-				a = 4
-			}
-			desc := fmt.Sprintf("statement chosen after the challenge: %d squares, attribute %d, sign=%d, factor=%d, bound off by ~2^200 on the false side", nsq, idx, sign, a)
-			r.Nontrivial(keyName + "|" + desc)
-			b, err := credL.CreateDisclosureProofBuilder([]int{4}, nil, false)
-			if err != nil {
-				r.HarnessError("builder: %v", err)
-				return
-			}
-			L := uint(64)
-			if nsq == 3 {
-				L = 86
-			}
-			R := pk.R[idx]
-			t0 := vfPow2(456)
-			as := new(big.Int).Mul(vfInt(int64(sign)), new(big.Int).SetUint64(uint64(a)))
-			var forged *ProofD
-			pan, _ := vkit.Guard(func() {
-				forged = vfForge(b, pk, func(p *ProofD) {
-					c := p.C
-					if c.BitLen() < 200 {
-						c = new(big.Int).Add(vfPow2(255), vfInt(12345)) // first round of the iteration: any plausible challenge
+		// verifier will reconstruct as commitments of the range proof (T = R^(t - a*sign*r_m), T_i = R^(2^(L*i)))
+		// and, once the challenge c is known, solves for the parts of the STATEMENT - the bases C_i = R^(d_i)
+		// (d_i the L-bit limbs of t mod c) and the bound k = a*m + sign*(t div c - sum d_i^2) - so that the
+		// verification equations reproduce exactly these commitments.  k is off by ~2^200 on the false side.
+		// If the C_i and k do not enter the challenge, the fixed point is reached at once.
+		{
+			// (attribute 2 is large, so that a bound 2^200 below factor*m is still non-negative)
+			credL := vfMint(k, vfTag("c12-secretL"), []*big.Int{vfInt(50), new(big.Int).Add(vfPow2(250), vfInt(12345)), vfInt(20), vfTag("c12-l4")}, 6)
+			attrs := credL.Attributes
+			for _, nsq := range []int{4, 3} {
+				for _, tg := range []struct {
+					idx  int
+					sign int
+					a    uint
+				}{{1, 1, 1}, {2, 1, 1}, {2, -1, 1}, {2, 1, 5}, {2, -1, 7}} {
+					if _, mine := r.Next(); !mine {
+						continue
 					}
-					rem := new(big.Int).Mod(t0, c)
-					j := new(big.Int).Div(new(big.Int).Sub(t0, rem), c)
-					mask := new(big.Int).Sub(vfPow2(L), vfInt(1))
-					sumsq := vfInt(0)
-					rp := &rangeproof.Proof{Ld: pk.Params.Lm, Sign: sign, A: a, V5Response: vfInt(0)}
-					for i := 0; i < nsq; i++ {
-						d := new(big.Int).And(new(big.Int).Rsh(rem, L*uint(i)), mask)
-						sumsq.Add(sumsq, new(big.Int).Mul(d, d))
-						rp.Cs = append(rp.Cs, new(big.Int).Exp(R, d, pk.N))
-						rp.DResponses = append(rp.DResponses, new(big.Int).Add(vfPow2(L*uint(i)), new(big.Int).Mul(c, d)))
-						rp.VResponses = append(rp.VResponses, vfInt(0))
+					r.Eval()
+					idx, sign, a := tg.idx, tg.sign, tg.a
+					if nsq == 3 {
+						a = 4
 					}
-					delta := new(big.Int).Sub(j, sumsq)
-					if delta.Sign() <= 0 {
-						panic("delta")
+					desc := fmt.Sprintf("statement chosen after the challenge: %d squares, attribute %d, sign=%d, factor=%d, bound off by ~2^200 on the false side", nsq, idx, sign, a)
+					r.Nontrivial(keyName + "|" + desc)
+					b, err := credL.CreateDisclosureProofBuilder([]int{4}, nil, false)
+					if err != nil {
+						r.HarnessError("builder: %v", err)
+						return
 					}
-					rp.K = new(big.Int).Add(new(big.Int).Mul(new(big.Int).SetUint64(uint64(a)), attrs[idx]), new(big.Int).Mul(vfInt(int64(sign)), delta))
-					// the m-commitment the verifier reconstructs is R^(t0 - a*sign*r_m) whatever c is: the response
-					// of the attribute is the honest one, nothing to do here
-					_ = as
-					p.RangeProofs = map[int][]*rangeproof.Proof{idx: {rp}}
-				}, false)
-			})
-			if pan || forged == nil {
-				r.Outcome(fmt.Sprintf("statement-after-challenge:no-fixed-point:nsq=%d:sign=%d", nsq, sign))
-				continue
-			}
-			acc, _ := c12Verify(pk, forged)
-			r.Outcome(fmt.Sprintf("statement-after-challenge:fixed-point:accepted=%v", acc))
-			if acc {
-				q := &ProofD{}
-				vfJSONCopy(forged, q)
-				q.Verify(pk, vfContext, vfNonce, false)
-				c12Judge(r, attrs, q, "forged-statement-chosen-after-the-challenge", map[string]any{"key": keyName, "forgery": desc})
+					L := uint(64)
+					if nsq == 3 {
+						L = 86
+					}
+					R := pk.R[idx]
+					t0 := vfPow2(456)
+					as := new(big.Int).Mul(vfInt(int64(sign)), new(big.Int).SetUint64(uint64(a)))
+					var forged *ProofD
+					pan, _ := vkit.Guard(func() {
+						forged = vfForge(b, pk, func(p *ProofD) {
+							c := p.C
+							if c.BitLen() < 200 {
+								c = new(big.Int).Add(vfPow2(255), vfInt(12345)) // first round of the iteration: any plausible challenge
+							}
+							rem := new(big.Int).Mod(t0, c)
+							j := new(big.Int).Div(new(big.Int).Sub(t0, rem), c)
+							mask := new(big.Int).Sub(vfPow2(L), vfInt(1))
+							sumsq := vfInt(0)
+							rp := &rangeproof.Proof{Ld: pk.Params.Lm, Sign: sign, A: a, V5Response: vfInt(0)}
+							for i := 0; i < nsq; i++ {
+								d := new(big.Int).And(new(big.Int).Rsh(rem, L*uint(i)), mask)
+								sumsq.Add(sumsq, new(big.Int).Mul(d, d))
+								rp.Cs = append(rp.Cs, new(big.Int).Exp(R, d, pk.N))
+								rp.DResponses = append(rp.DResponses, new(big.Int).Add(vfPow2(L*uint(i)), new(big.Int).Mul(c, d)))
+								rp.VResponses = append(rp.VResponses, vfInt(0))
+							}
+							delta := new(big.Int).Sub(j, sumsq)
+							if delta.Sign() <= 0 {
+								panic("delta")
+							}
+							rp.K = new(big.Int).Add(new(big.Int).Mul(new(big.Int).SetUint64(uint64(a)), attrs[idx]), new(big.Int).Mul(vfInt(int64(sign)), delta))
+							// the m-commitment the verifier reconstructs is R^(t0 - a*sign*r_m) whatever c is: the response
+							// of the attribute is the honest one, nothing to do here
+							_ = as
+							p.RangeProofs = map[int][]*rangeproof.Proof{idx: {rp}}
+						}, false)
+					})
+					if pan || forged == nil {
+						r.Outcome(fmt.Sprintf("statement-after-challenge:no-fixed-point:nsq=%d:sign=%d", nsq, sign))
+						continue
+					}
+					acc, _ := c12Verify(pk, forged)
+					r.Outcome(fmt.Sprintf("statement-after-challenge:fixed-point:accepted=%v", acc))
+					if acc {
+						q := &ProofD{}
+						vfJSONCopy(forged, q)
+						q.Verify(pk, vfContext, vfNonce, false)
+						c12Judge(r, attrs, q, "forged-statement-chosen-after-the-challenge", map[string]any{"key": keyName, "forgery": desc})
+					}
+				}
 			}
 		}
-	}
-}
-// forgery by omission: a credential with a zero-valued attribute below the attacked one; the holder
+		// forgery by omission: a credential with a zero-valued attribute below the attacked one; the holder
 		// gives the zero attribute the randomiser 0 and mentions it neither as hidden nor as disclosed
 		// (R_i^0 = 1, the equation still holds), so the proof mentions fewer indices than its largest hidden
 		// index + 1, and attaches a range proof with a false bound at that largest index
